@@ -71,3 +71,18 @@ Definition check_case (c : c14_case) : list Z :=
 (* result: (case id, differing views) for every disagreeing case *)
 Definition bad_cases (cs : list c14_case) : list (Z * list Z) :=
   flat_map (fun c => match check_case c with [] => [] | d => [(k_id c, d)] end) cs.
+
+(* ---- polygon views: observed events of the iteration, of the id iteration resolved through the polygon, and of
+   random access event(i) for i = 0 .. len *)
+From LV Require Import Model.Polygon.
+Definition pt_eqb' (a b : pt) : bool := pt_eqb a b.
+Definition pevent_eqb := event_eqb pt_eqb' pt_eqb'.
+Record poly_case := mkPoly { pc_id : Z; pc_pts : list pt; pc_closed : bool;
+                             pc_iter : list pevent; pc_ids : list pevent; pc_random : list pevent }.
+Definition poly_bad_cases (cs : list poly_case) : list Z :=
+  flat_map (fun c =>
+    let ev := poly_events (pc_pts c) (pc_closed c) in
+    let ra := match pc_pts c with [] => [] | _ => map (poly_event (pc_pts c) (pc_closed c)) (seq 0 (S (length (pc_pts c)))) end in
+    if list_eqb pevent_eqb ev (pc_iter c) && list_eqb pevent_eqb (poly_id_events (pc_pts c) (pc_closed c)) (pc_ids c)
+       && list_eqb pevent_eqb ra (pc_random c)
+    then [] else [pc_id c]) cs.
